@@ -213,6 +213,21 @@ def _impl(tier, seed, search):
     }
     for name, (symcall, numcall, syms) in ENT.items():
         compare(name, symcall, numcall, syms)
+    # numeric arguments held in a narrower NumPy type (np.float32 scalars): the numeric path is still the double-precision value of the
+    # symbolic expression at that number
+    for name, symf, numf in (('rotx(float32)', lambda: b.rotx(th), b.rotx), ('roty(float32)', lambda: b.roty(th), b.roty), ('rotz(float32)', lambda: b.rotz(th), b.rotz), ('trotx(float32)', lambda: b.trotx(th), b.trotx),
+                             ('rot2(float32)', lambda: b.rot2(th), b.rot2), ('trot2(float32)', lambda: b.trot2(th), b.trot2), ('eul2r(float32 scalars)', lambda: b.eul2r(th, th, th), lambda t_: b.eul2r(t_, t_, t_)),
+                             ('rpy2r(float32 scalars)', lambda: b.rpy2r(th, th, th), lambda t_: b.rpy2r(t_, t_, t_))):
+        try:
+            Sa = np.array(symf(), dtype=object); f32 = sp.lambdify([th], [sp.sympify(e_) for e_ in Sa.flat], 'math')
+        except Exception: continue
+        for tv_ in (np.float32(0.3), np.float32(-2.1), np.float32(1.5707963), np.float32(3.0)):
+            L.count('sym-point(float32)', key=(name, float(tv_)))
+            try: Na = np.asarray(numf(tv_), float); Sv = np.array(f32(float(tv_)), float).reshape(Na.shape)
+            except Exception as e:
+                L.fail(f'sym-eval:{name}', f'{name}: evaluating with a float32 angle raised {type(e).__name__}', dict(entry=name, angle=float(tv_))); break
+            if not np.allclose(Sv, Na, rtol=0, atol=1e-12):
+                L.fail(f'sym-value:{name}', f'{name}: with an np.float32 angle the numeric result differs from the symbolic result substituted at that number', dict(entry=name, angle=float(tv_)), observed=Sv, required=Na); break
     ents = supported_entries()
     L.stats['entries_marked_supported'] = len(ents)
     covered = {n.split('(')[0].split('.')[-1].split('*')[0] for n in ENT}
